@@ -345,6 +345,45 @@ Proof.
 Qed.
 Print Assumptions C11_renumbering_global_bijection.
 
+(* the incidence matrices p2f, p2t, p2e, e2t (model of the coo/csc construction after the wedge repair): p2f has shape
+   (nfacets, nv), entries 0/1, and entry (f, v) = 1 exactly when v is a vertex of facet f; p2t / p2e are the same indicator for
+   cells / edges without repeated vertices; e2t[e][g] is 0/1 and 1 exactly when both end points of edge g lie in cell e *)
+Theorem C11_incidence_matrices :
+  (forall (ents : list (list nat)) (nv : nat),
+     length (incidence_01 ents nv) = length ents /\
+     forall r v, r < length ents -> v < nv ->
+       length (nth r (incidence_01 ents nv) []) = nv /\
+       (nth v (nth r (incidence_01 ents nv) []) 0 = 1 <-> In v (nth r ents [])) /\
+       (nth v (nth r (incidence_01 ents nv) []) 0 = 0 <-> ~ In v (nth r ents []))) /\
+  (forall ents nv, Forall (fun c => NoDup c) ents -> incidence_count ents nv = incidence_01 ents nv) /\
+  (forall cells edges e g, e < length cells -> g < length edges -> NoDup (nth e cells []) ->
+     let x := nth g (nth e (e2t_matrix cells edges) []) 0 in
+     (x = 0 \/ x = 1) /\
+     (x = 1 <-> In (nth 0 (nth g edges []) 0) (nth e cells []) /\ In (nth 1 (nth g edges []) 0) (nth e cells []))).
+Proof. split; [exact incidence_01_spec|]. split; [exact incidence_count_spec | exact e2t_spec]. Qed.
+Print Assumptions C11_incidence_matrices.
+
+(* the nodes of a mesh are its VERTICES (numbers below nvertices = max(t) + 1), also for second-order meshes that carry more
+   points: every boundary node is a vertex, interior_nodes(nvertices) is exactly the set of vertices that are not boundary
+   nodes, and the two sets partition [0, nvertices) *)
+Theorem C11_nodes_are_vertices :
+  forall (cells idx : list (list nat)) (f2t : list (list Z)),
+    length (nth 1 f2t []) = length (entities true cells idx) ->
+    let bn := boundary_nodes (entities true cells idx) (boundary_facets f2t) in
+    let nv := nvertices cells in
+    (forall v, In v bn -> v < nv) /\
+    (forall v, In v (interior_nodes nv bn) <-> v < nv /\ ~ In v bn) /\
+    (forall v, v < nv -> (In v bn \/ In v (interior_nodes nv bn)) /\ ~ (In v bn /\ In v (interior_nodes nv bn))).
+Proof.
+  intros cells idx f2t HL bn nv. split; [|split].
+  - intros v Hv. apply boundary_nodes_spec in Hv. destruct Hv as [f [Hf Hin]].
+    apply boundary_facets_spec in Hf. destruct Hf as [Hf _]. rewrite HL in Hf.
+    exact (entity_vertices_below_nvertices cells idx f v Hin Hf).
+  - intros v. apply setdiff_range_spec.
+  - intros v Hv. now apply boundary_interior_partition.
+Qed.
+Print Assumptions C11_nodes_are_vertices.
+
 (* ---- non-vacuity: two triangles sharing the edge {1,2}, one renumbered quadrilateral pair, a tetrahedron *)
 Example C11_two_triangles :
   let tb := derive tri_sortf 4 [[0; 1; 2]; [3; 2; 1]] tri_facets in
